@@ -19,14 +19,15 @@ func TestC37(t *testing.T) {
 	c.Assume("the SDK message handlers (bank, staking, gov, authz, transfer) are the trusted base: a message they execute has the effect the harness probes for")
 	c.Assume("an account that granted the interchain account an authz SendAuthorization on chain has itself authorised the resulting transfer (not counted as acting for another account)")
 	c.Assume("allow-list reference: the list [\"*\"] allows every type, any other list allows exactly its members; nested messages of MsgExec are not 'the packet's messages'")
-	c.Floor("relay_cases", 250)
-	c.Floor("module_cases", 250)
-	c.Floor("unauthorized_packets", 400)
-	c.Floor("unauthorized_refused_clean", 400)
-	c.Floor("authorized_executed_all", 6)
+	c.Floor("relay_cases", 200)
+	c.Floor("module_cases", 200)
+	c.Floor("unauthorized_packets", 280)
+	c.Floor("unauthorized_refused_clean", 280)
+	c.Floor("authorized_executed_all", 25)
+	c.Floor("authorized_with_granted_exec", 5)
 	c.Floor("authorized_failed_rolled_back", 100)
-	c.Floor("failing_message_among_good_ones", 80)
-	c.Floor("balance_decreases_checked", 6)
+	c.Floor("failing_message_among_good_ones", 90)
+	c.Floor("balance_decreases_checked", 30)
 	c.Exhaustive = true
 
 	var x *c37World
